@@ -19,7 +19,7 @@ from .e2e import Case, first_diff
 
 
 def tlc_textlog(sc, maxlines, maxcalls):
-    cfg = write_cfg(os.path.join(sc, "tlc", "textlog.cfg"), {"MaxLines": maxlines, "MaxCalls": maxcalls}, spec="Spec",
+    cfg = write_cfg(os.path.join(sc, "tlc", "textlog.cfg"), {"MaxLines": maxlines, "MaxCalls": maxcalls, "INBLOCK": True}, spec="Spec",
                     invariants=["TilingInv", "CacheSane", "Dump", "DumpExpect"], view="view")
     r = tlc("TextLog", cfg, os.path.join(sc, "tlc"), workers=1, timeout=900)
     if r.violated:
@@ -52,7 +52,7 @@ def expected_results(layout, expect, op, line):
         return [{"r": "found", "next": layout.line_end(i) + 1, "beg": layout.beg[i], "end": layout.line_end(i),
                  "hex": layout.lines[i].hex()}]
     out = []
-    for h, last in expect[line - 1][3]:
+    for h, last in [tuple(x) for x in expect[line - 1][3]]:
         if h == 0:
             out.append({"r": "done"})
         else:
@@ -60,6 +60,37 @@ def expected_results(layout, expect, op, line):
             out.append({"r": "found", "next": layout.line_end(last - 1) + 1, "beg": layout.beg[h - 1],
                         "end": layout.line_end(last - 1), "hex": data.hex()})
     return out
+
+
+def scan_ok(layout, op, got):
+    """the block-zero scan (ScanIB): its own answers are block-size dependent and left open by the specification,
+    except that whatever it finds is made of whole lines of the file, in file order: a line (scanline), the leading
+    lines of one message (scansys: a message that continues in the next block is answered up to the block end)"""
+    if got.get("r") != "scan":
+        return False
+    at = 0
+    for st in got["steps"]:
+        if st.get("r") == "done":
+            continue
+        if st.get("r") != "found":
+            return False
+        beg, end = st["beg"], st["end"]
+        if beg < at or beg not in layout.beg or st["next"] != end + 1:
+            return False
+        i = layout.beg.index(beg)
+        j = i
+        while j < len(layout.lines) and layout.line_end(j) < end:
+            j += 1
+        if j >= len(layout.lines) or layout.line_end(j) != end:
+            return False
+        if op == "scanline" and j != i:
+            return False
+        if op == "scansys" and (not layout.dated[i] or any(layout.dated[x] for x in range(i + 1, j + 1))):
+            return False
+        if st["hex"] != layout.data[beg:end + 1].hex():
+            return False
+        at = end + 1
+    return True
 
 
 def inproc_part(pid, tier, rng, sc, rep):
@@ -95,16 +126,15 @@ def inproc_part(pid, tier, rng, sc, rep):
             for (op, line, pos) in calls_all:
                 B = rng.choice(bs_small + [lay.size, lay.size + 1, max(1, lay.size - 1), 64, 4096])
                 seq = [(c[0], c[1], c[2]) for c in path] + [(op, line, pos)]
-                reader = "line" if all(c[0] == "line" for c in seq) else "sysline"
-                if reader == "sysline" and any(c[0] == "line" for c in seq):
-                    # SyslineReader has no find_line entry point: a line call is made as a sysline call's
-                    # precursor on the same reader only when the whole sequence is line calls
-                    seq = [c for c in seq if c[0] == "sysline"]
+                reader = "line" if all(c[0] in ("line", "scanline") for c in seq) else "sysline"
+                if reader == "sysline" and any(c[0] in ("line", "scanline") for c in seq):
+                    # SyslineReader has no find_line entry point: line calls are kept only in all-line sequences
+                    seq = [c for c in seq if c[0] in ("sysline", "scansys")]
                     if not seq or seq[-1] != (op, line, pos):
                         continue
                 iid = len(instances)
                 instances.append({"id": iid, "path": fpath, "blocksz": B, "reader": reader,
-                                  "calls": [[c[0], call_offset(lay, c[1], c[2])] for c in seq]})
+                                  "calls": [[c[0], _arg(lay, c)] for c in seq]})
                 meta[iid] = (lay, expect, seq, B, kinds, nl)
     # run through the harness in parallel chunks
     chunks = [instances[i::8] for i in range(8)]
@@ -131,22 +161,37 @@ def inproc_part(pid, tier, rng, sc, rep):
             continue
         for (op, line, pos), got in zip(seq, o["res"]):
             ncalls += 1
+            if op in ("scanline", "scansys"):
+                if not scan_ok(lay, op, got):
+                    rep.violation("inproc:%s" % op, "%s(%d) at blocksz %d on %s nl=%s answered %s"
+                                  % (op, line, B, "".join(kinds), nl, json.dumps(got)[:300]),
+                                  {"kind": "inproc", "file_hex": lay.data.hex(), "blocksz": B,
+                                   "calls": [[c[0], _arg(lay, c)] for c in seq], "got": got})
+                    break
+                continue
             wants = expected_results(lay, expect, op, line)
             want = wants[0]
             gotc = {k: got.get(k) for k in ("r", "next", "beg", "end", "hex") if k in got}
+            if gotc.get("r") == "done":
+                gotc = {"r": "done"}
             if gotc not in wants:
                 rep.violation("inproc:%s:%s" % (op, "done" if want["r"] == "done" else "found"),
                               "%s(%d) at blocksz %d on %s nl=%s: expected %s got %s"
                               % (op, call_offset(lay, line, pos), B, "".join(kinds), nl, _short(want), _short(gotc)),
                               {"kind": "inproc", "file_hex": lay.data.hex(), "blocksz": B,
-                               "calls": [[c[0], call_offset(lay, c[1], c[2])] for c in seq],
+                               "calls": [[c[0], _arg(lay, c)] for c in seq],
                                "expected_last": want, "got_last": gotc})
                 break
         distinct.add((kinds, nl, tuple(seq), B, lay.data))
         if len(samples) < 3 and len(seq) >= 2:
             samples.append({"abstract_file": "".join(kinds), "final_newline": nl, "blocksz": B,
-                            "file_hex": lay.data.hex()[:160], "calls": [[c[0], call_offset(lay, c[1], c[2])] for c in seq]})
+                            "file_hex": lay.data.hex()[:160], "calls": [[c[0], _arg(lay, c)] for c in seq]})
     return r, ncalls, len(distinct), samples
+
+
+def _arg(lay, c):
+    """harness argument of a call: the scan ops take a step count, every other op a byte offset"""
+    return c[1] if c[0] in ("scanline", "scansys") else call_offset(lay, c[1], c[2])
 
 
 def _short(d):
